@@ -90,6 +90,77 @@ theorem evalR_mkDisabled (st : StructTable) (ρ : Store) (f : ForkAssign) (d inn
     split <;> simp [evalR]
   · simp [evalR]
 
+theorem mkMerge_noSplit (c : String) (m : Bool) (x : RExp) (h : noSplitOf c x = true) :
+    mkMerge c m x = .merge c m x := by
+  cases x <;> simp only [mkMerge]
+  next c' m' v =>
+    simp only [noSplitOf, Bool.and_eq_true, bne_iff_ne, ne_eq] at h
+    have : (c' == c) = false := by simpa using h.1
+    simp [this]
+
+theorem noSplitOf_mkDisabled (c : String) (d v : RExp) (hd : noSplitOf c d = true) (hv : noSplitOf c v = true) :
+    noSplitOf c (mkDisabled d v) = true := by
+  unfold mkDisabled
+  split
+  · simp [noSplitOf]
+  · split
+    · simp [noSplitOf]
+    · exact hv
+  · simp [noSplitOf, hd, hv]
+
+theorem noSplitOf_lookup (c : String) : ∀ (kvs : List (String × RExp)) (k : String),
+    noSplitOfFields c kvs = true → noSplitOf c ((kvs.lookup k).getD (.lit .null)) = true
+  | [], _, _ => by simp [noSplitOf]
+  | (k', e) :: es, k, h => by
+    simp only [noSplitOfFields, Bool.and_eq_true] at h
+    simp only [List.lookup_cons]
+    cases (k == k') with
+    | true => exact h.1
+    | false => exact noSplitOf_lookup c es k h.2
+
+theorem noSplitOf_mkMerge (c c' : String) (m : Bool) (x : RExp) (h : noSplitOf c x = true) :
+    noSplitOf c (mkMerge c' m x) = true := by
+  cases x <;> simp only [mkMerge, noSplitOf] at h ⊢ <;> try exact h
+  next c2 m2 v =>
+    simp only [Bool.and_eq_true] at h
+    split
+    · exact h.2
+    · simp [noSplitOf, h.1, h.2]
+
+mutual
+/-- projection does not create a `split` -/
+theorem noSplitOf_bpR (c fld : String) : ∀ e : RExp, noSplitOf c e = true → noSplitOf c (bpR fld e) = true
+  | .lit _, _ => by simp [bpR, noSplitOf]
+  | .arr xs, h => by simp only [bpR, noSplitOf] at h ⊢; exact noSplitOf_bpRList c fld xs h
+  | .map kvs, h => by simp only [bpR, noSplitOf] at h ⊢; exact noSplitOf_bpRFields c fld kvs h
+  | .struct kvs, h => by simp only [bpR, noSplitOf] at h ⊢; exact noSplitOf_lookup c kvs fld h
+  | .ref _ _ _, _ => by simp [bpR, noSplitOf]
+  | .split c' m e, h => by
+    simp only [bpR, noSplitOf, Bool.and_eq_true] at h ⊢
+    exact ⟨h.1, noSplitOf_bpR c fld e h.2⟩
+  | .merge c' m e, h => by
+    simp only [bpR, noSplitOf] at h ⊢
+    exact noSplitOf_mkMerge c c' m _ (noSplitOf_bpR c fld e h)
+  | .disabled d v, h => by
+    simp only [bpR, noSplitOf, Bool.and_eq_true] at h ⊢
+    exact noSplitOf_mkDisabled c d _ h.1 (noSplitOf_bpR c fld v h.2)
+  | .fork c' ix e, h => by
+    simp only [bpR, noSplitOf] at h ⊢
+    exact noSplitOf_bpR c fld e h
+theorem noSplitOf_bpRList (c fld : String) : ∀ es : List RExp, noSplitOfList c es = true →
+    noSplitOfList c (bpRList fld es) = true
+  | [], _ => by simp [bpRList, noSplitOfList]
+  | e :: es, h => by
+    simp only [bpRList, noSplitOfList, Bool.and_eq_true] at h ⊢
+    exact ⟨noSplitOf_bpR c fld e h.1, noSplitOf_bpRList c fld es h.2⟩
+theorem noSplitOf_bpRFields (c fld : String) : ∀ es : List (String × RExp), noSplitOfFields c es = true →
+    noSplitOfFields c (bpRFields fld es) = true
+  | [], _ => by simp [bpRFields, noSplitOfFields]
+  | (k, e) :: es, h => by
+    simp only [bpRFields, noSplitOfFields, Bool.and_eq_true] at h ⊢
+    exact ⟨noSplitOf_bpR c fld e h.1, noSplitOf_bpRFields c fld es h.2⟩
+end
+
 mutual
 theorem bpR_sound (st : StructTable) (ρ : Store) (fld : String) :
     ∀ (e : RExp) (t : Ty) (f : ForkAssign), wtR st t e = true →
@@ -142,21 +213,23 @@ theorem bpR_sound (st : StructTable) (ρ : Store) (fld : String) :
     obtain ⟨b, m, n⟩ := t
     simp only [wtR, Bool.and_eq_true, bne_iff_ne, ne_eq] at h
     cases n with
-    | zero => exact absurd rfl h.1
+    | zero => exact absurd rfl h.1.1
     | succ n =>
-      simp only [bpR, evalR, proj1_arr, List.map_map, J.arr.injEq]
+      simp only [bpR, mkMerge_noSplit c false _ (noSplitOf_bpR c fld e h.1.2), evalR, proj1_arr, List.map_map,
+        J.arr.injEq]
       apply List.map_congr_left
       intro ix _
       exact bpR_sound st ρ fld e ⟨b, m, n⟩ (fset f c ix) h.2
   | .merge c true e, t, f, h => by
     obtain ⟨b, m, n⟩ := t
     simp only [wtR, Bool.and_eq_true, bne_iff_ne, ne_eq, beq_iff_eq] at h
-    obtain ⟨⟨hn, hm⟩, he⟩ := h
+    obtain ⟨⟨⟨hn, hm⟩, hns⟩, he⟩ := h
     subst hn
     cases m with
     | zero => exact absurd rfl hm
     | succ k =>
-      simp only [bpR, evalR, proj1_obj, List.map_map, J.obj.injEq]
+      simp only [bpR, mkMerge_noSplit c true _ (noSplitOf_bpR c fld e hns), evalR, proj1_obj, List.map_map,
+        J.obj.injEq]
       apply List.map_congr_left
       intro ix _
       simp only [Function.comp_apply]
@@ -224,5 +297,28 @@ theorem split_merge_cancel_map (st : StructTable) (ρ : Store) (f : ForkAssign) 
     rfl
   rw [h2, h]
   rfl
+
+theorem map_getD_range (xs : List J) : (List.range xs.length).map (fun k => xs.getD k .null) = xs := by
+  apply List.ext_getElem
+  · simp
+  · intro i h1 h2
+    simp [List.getD_eq_getElem?_getD, List.getElem?_eq_getElem h2]
+
+/-- the cancellation `mkMerge` performs (merge over `c` of the elements of a collection split over
+`c` = the collection) is sound for the stores in which the index set of `c` is that of the
+collection and the collection does not vary with the fork of `c` (array mode) -/
+theorem merge_split_cancel_arr (st : StructTable) (ρ : Store) (f : ForkAssign) (c : String) (v : RExp)
+    (xs : List J) (hv : evalR st ρ f v = .arr xs)
+    (hind : ∀ k, k < xs.length → evalR st ρ (fset f c (.i k)) v = .arr xs)
+    (hidx : ρ.idx c f = (List.range xs.length).map .i) :
+    evalR st ρ f (.merge c false (.split c false v)) = evalR st ρ f v := by
+  simp only [evalR, hidx, List.map_map, hv, J.arr.injEq]
+  have : (List.range xs.length).map ((fun ix => elemArr (evalR st ρ (fset f c ix) v)
+      (((fset f c ix).lookup c).getD .none)) ∘ Idx.i) = (List.range xs.length).map (fun k => xs.getD k .null) := by
+    apply List.map_congr_left
+    intro k hk
+    simp only [List.mem_range] at hk
+    simp only [Function.comp_apply, fset_lookup, Option.getD_some, hind k hk, elemArr, elemAt]
+  rw [this, map_getD_range]
 
 end Proofs.ResolverForks
